@@ -301,3 +301,30 @@ func VH_C04_mixed(kind, order int) {
 	}
 	vreach("end")
 }
+
+// VH_C04_std_names (C01/C04): a when-pattern may use a variable that is spelled like one
+// of the standard bindings (?location, ?ruleId, ?event). The rule's condition and actions
+// see exactly the bindings the match yields: the matched value, not the standard one.
+func VH_C04_std_names(kind, which int) {
+	env, in := vhDispatchEnv(kind)
+	v := []string{"?location", "?ruleId", "?event"}[which]
+	r := vhRule(map[string]interface{}{"a": v, "b": "?x"}, "act")
+	_, err := env.loc.AddRule(env.ctx, "r1", r)
+	vassume(err == nil)
+	s, t := vsymStrN("e.a", 3), vsymStrN("e.b", 3)
+	vassume(!IsVariable(s) && !IsVariable(t))
+	_, cond := env.loc.ProcessEvent(env.ctx, Map{"a": s, "b": t})
+	vassert(cond == nil, "event-complete")
+	vassert(len(in.execs) == 1, "each-action-exactly-once")
+	if len(in.execs) == 1 {
+		b := in.execs[0].bindings
+		vassert(vdeepEq(b[v], s), "action-sees-exactly-the-match-bindings")
+		vassert(vdeepEq(b["?x"], t), "action-sees-exactly-the-match-bindings")
+		for i, std := range []string{"?location", "?ruleId", "?event"} {
+			if i != which {
+				vassert(b[std] != nil, "standard-bindings-visible")
+			}
+		}
+	}
+	vreach("end")
+}
